@@ -64,9 +64,15 @@ func renameOldTypeDefinitions(env *Environment, changes []DefinitionChange, vers
 		td.GetDefinitionMeta().Name = td.GetDefinitionMeta().Name + "_" + versionLabel
 	}
 
+	// every definition is renamed (and descended into) once, however many paths lead to it
+	visitedDefinitions := make(map[TypeDefinition]bool)
 	Visit(env, func(self Visitor, node Node) {
 		switch node := node.(type) {
 		case TypeDefinition:
+			if visitedDefinitions[node] {
+				return
+			}
+			visitedDefinitions[node] = true
 			oldName := node.GetDefinitionMeta().GetQualifiedName()
 			if oldNames[oldName] {
 				node.GetDefinitionMeta().Name = node.GetDefinitionMeta().Name + "_" + versionLabel
@@ -556,7 +562,17 @@ func resolveAllChanges(newEnv, oldEnv *Environment) ([]DefinitionChange, map[str
 			if tc == nil {
 				continue
 			}
+			visitedDefinitions := make(map[TypeDefinition]bool)
 			Visit(tc.OldType(), func(self Visitor, node Node) {
+				if td, isDefinition := node.(TypeDefinition); isDefinition && td != nil {
+					// descend into every definition once, however many paths lead to it
+					if _, isPrimitive := td.(PrimitiveDefinition); !isPrimitive {
+						if visitedDefinitions[td] {
+							return
+						}
+						visitedDefinitions[td] = true
+					}
+				}
 				switch node := node.(type) {
 				case nil, PrimitiveDefinition, *GenericTypeParameter:
 					return
